@@ -1928,14 +1928,16 @@ coap_parse_oscore_conf_mem(coap_str_const_t conf_mem) {
             goto error_free_value_bin;
           }
           /* Special case as there are potentially multiple entries */
-          oscore_conf->recipient_id =
+          coap_bin_const_t **new_list =
               coap_realloc_type(COAP_STRING,
                                 oscore_conf->recipient_id,
                                 sizeof(oscore_conf->recipient_id[0]) *
                                 (oscore_conf->recipient_id_count + 1));
-          if (oscore_conf->recipient_id == NULL) {
+          if (new_list == NULL) {
+            /* the old list is still valid and is freed with oscore_conf */
             goto error_free_value_bin;
           }
+          oscore_conf->recipient_id = new_list;
           oscore_conf->recipient_id[oscore_conf->recipient_id_count++] =
               value.u.value_bin;
         } else {
